@@ -265,7 +265,7 @@ def judge_attrs(chk: Check, row: Dict[str, Any], obs: Dict[str, Any], origin: st
     dev = row.get("dev") or {}
     key = None
     if dev.get("key"):
-        same = (obs["err"] == dev["err"]) if dev["err"] else \
+        same = (obs["err"] in dev["err"].split("|")) if dev["err"] else \
             (not obs["err"] and [(a["n"], a["v"], a["bare"]) for a in obs["attrs"]]
              == [(a["n"], a["v"], a["bare"]) for a in dev["attrs"]])
         if same:
@@ -357,14 +357,475 @@ def _canon(s: str) -> str:
 
 def judge_slot(chk: Check, row: Dict[str, Any], obs: Dict[str, Any], origin_tag: str) -> None:
     got = _canon(obs["out"])
-    if not obs["err"] and got in row["texts"]:
-        times = 0 if got == row["content"] else 1
+    if not obs["err"] and got in [_canon(t) for t in row["texts"]]:
+        times = 0 if got == _canon(row["content"]) else 1
         if times != row["bcount"]:
             chk.add("model_drift")          # wrapper model predicted another admitted count: not a violation
         return
-    times = "error" if obs["err"] else 2 if got in row["twice"] else 1 if got in row["once"] else \
-        0 if got == row["content"] else "other"
+    times = "error" if obs["err"] else 2 if got in map(_canon, row["twice"]) else \
+        1 if got in map(_canon, row["once"]) else 0 if got == _canon(row["content"]) else "other"
     chk.violation({"kind": "slot", "origin": origin_tag, "content_origin": row["origin"], "content": row["content"],
                    "hops": row["hops"]},
                   {"admitted_times": row["admitted"], "admitted_texts": row["texts"], "observed_times": times,
                    "observed": obs})
+
+
+# ====================================================================== js / css end-tag guard
+_guard_seq = [0]
+_DOC = "<html><head><title>t</title></head><body><p>hi</p></body></html>"
+
+
+def observe_guard(kind: str, s: str) -> Dict[str, Any]:
+    """Render a fresh component whose Component.js / Component.css is `s` as a document.
+    outcome: "refused" (exception), "absent" (rendered, content not in the output), "emitted" (the
+    element with exactly this content is in the output), "altered" (marker present, text differs).
+    rest: the output from just after the element's start tag (for the tokenizer of the specification)."""
+    from django_components import Component
+    _guard_seq[0] += 1
+    tag = "script" if kind == "js" else "style"
+    cls = type(f"VfC13Guard{_guard_seq[0]}", (Component,), {"template": _DOC, kind: s})
+    try:
+        out = cls.render()
+    except Exception as e:
+        return {"outcome": "refused", "exc": type(e).__name__, "rest": ""}
+    if s.strip() != s or not s.startswith("M1"):
+        raise MachineryError("guard contents start with the marker M1 and carry no outer white space")
+    start = f"<{tag}>"
+    i = out.find(start + "M1")
+    if i < 0:
+        return {"outcome": "altered" if "M1" in out else "absent", "exc": "", "rest": ""}
+    rest = out[i + len(start):]
+    return {"outcome": "emitted" if rest.startswith(s + f"</{tag}>") else "altered", "exc": "", "rest": rest}
+
+
+def judge_guard(chk: Check, row: Dict[str, Any], obs: Dict[str, Any], origin: str) -> None:
+    if obs["outcome"] in row["admitted"]:
+        return
+    dev = row.get("dev") or {}
+    key = dev["key"] if dev.get("key") and obs["outcome"] == dev["outcome"] else None
+    chk.violation({"kind": "guard", "origin": origin, "component_attr": row["kind"], "content": row["s"]},
+                  {"admitted": row["admitted"], "observed": obs["outcome"], "exception": obs["exc"],
+                   "output_after_start_tag": obs["rest"][:300]}, key=key)
+
+
+# ====================================================================== TLC: bounded instances
+_INV_A = ["LawOverride", "LawAppend", "CaseOK"]
+_INV_S = ["StepwiseIsRun", "Refines", "NeverTwice", "Export"]
+_INV_G = ["Agree", "Shape", "AdmittedNonEmpty", "Export"]
+
+
+def _write_cfg(path: Path, consts: Dict[str, Any], invariants: List[str], properties: List[str] = (),
+               overrides: Dict[str, str] = None) -> None:
+    lines = ["SPECIFICATION MCSpec", "CONSTANTS"]
+    for k, v in consts.items():
+        lines.append(f"  {k} = " + (f'"{v}"' if isinstance(v, str) else str(v)))
+    for k, v in (overrides or {}).items():
+        lines.append(f"  {k} <- {v}")
+    lines += [f"INVARIANT {i}" for i in invariants] + [f"PROPERTY {p}" for p in properties]
+    path.write_text("\n".join(lines) + "\n")
+
+
+def _instances(tier: str) -> List[Dict[str, Any]]:
+    """The bounded instances of a tier: (name, module, constants, invariants, ...)."""
+    q = tier != "thorough"
+    return [
+        dict(name="attrs-values", module="MC_C13A", inv=_INV_A, over={"NameClass": "NameClassCached"},
+             consts=dict(Profile="values", MaxKw=2 if q else 3, MaxEntries=9, NNames=1)),
+        dict(name="attrs-forms", module="MC_C13A", inv=_INV_A, over={"NameClass": "NameClassCached"},
+             consts=dict(Profile="forms", MaxKw=2, MaxEntries=3 if q else 4, NNames=2 if q else 3)),
+        dict(name="attrs-names", module="MC_C13A", inv=_INV_A, over={"NameClass": "NameClassCached"},
+             consts=dict(Profile="names", MaxKw=1, MaxEntries=9, NNames=1)),
+        dict(name="attrs-repeat", module="MC_C13A", inv=_INV_A, over={"NameClass": "NameClassCached"},
+             consts=dict(Profile="repeat", MaxKw=5 if q else 6, MaxEntries=9, NNames=3)),
+        dict(name="slots", module="MC_C13S", inv=_INV_S, props=["CountMonotone"],
+             consts=dict(MaxHops=2 if q else 3)),
+        dict(name="guard", module="MC_C13G", inv=_INV_G, consts=dict(MaskMode="few" if q else "all")),
+    ]
+
+
+def _run_instance(w: Path, inst: Dict[str, Any]) -> Dict[str, Any]:
+    cfg = w / f"{inst['name']}.cfg"
+    out = w / f"{inst['name']}.ndjson"
+    if out.exists():
+        out.unlink()
+    _write_cfg(cfg, inst["consts"], inst["inv"], inst.get("props", []), inst.get("over"))
+    r = tlc.require_ok(tlc.run(inst["module"], str(cfg), env=dict(TLC_ENV, OUT=str(out)), workers=1,
+                               timeout=3000), f"{inst['module']} {inst['name']}")
+    rows = tlc.read_ndjson(out)
+    # one exported line per distinct state (slots: the 24 hop-less initial states carry no case)
+    skipped = 24 if inst["name"] == "slots" else 0
+    if len(rows) != r.distinct - skipped:
+        raise MachineryError(f"{inst['name']}: export incomplete, {len(rows)} rows for {r.distinct} states")
+    return {"name": inst["name"], "rows": rows, "states": r.distinct, "transitions": r.generated,
+            "wall_s": round(r.wall_s, 1)}
+
+
+def compute_exports(tier: str, only: Optional[List[str]] = None) -> List[Dict[str, Any]]:
+    """Run the bounded instances (concurrently, one TLC worker each: export order matters)."""
+    from concurrent.futures import ThreadPoolExecutor
+    w = workdir("c13mc")
+    insts = [i for i in _instances(tier) if only is None or i["name"] in only]
+    with ThreadPoolExecutor(max_workers=len(insts)) as ex:
+        return list(ex.map(lambda i: _run_instance(w, i), insts))
+
+
+# ====================================================================== spec -> code
+def _observe_row(arg: Tuple[str, Dict[str, Any]]) -> Dict[str, Any]:
+    name, row = arg
+    if name.startswith("attrs"):
+        return observe_attrs(row)
+    if name == "slots":
+        return observe_slot(row["origin"], row["content"], row["hops"])
+    return observe_guard(row["kind"], row["s"])
+
+
+def _observe_all(items: List[Tuple[str, Dict[str, Any]]], procs: int) -> List[Dict[str, Any]]:
+    if procs <= 1 or len(items) < 2000:
+        return [_observe_row(i) for i in items]
+    import multiprocessing as mp
+    ctx = mp.get_context("fork")          # children inherit the configured Django and any probe patch
+    with ctx.Pool(procs) as pool:
+        return pool.map(_observe_row, items, chunksize=500)
+
+
+def replay_exports(chk: Check, exports: List[Dict[str, Any]], procs: int = 6) -> None:
+    items = [(e["name"], row) for e in exports for row in e["rows"]]
+    obs = _observe_all(items, procs)
+    for (name, row), o in zip(items, obs):
+        if name.startswith("attrs"):
+            nontrivial = bool(row["kws"]) or (bool(row["attrs"]) and bool(row["defaults"])) or \
+                any(it["cls"] != "exact" for it in row["items"])
+            chk.count(["a", row["defaults"], row["attrs"], row["kws"], row["vias"], row["fa"], row["fd"]], nontrivial)
+            judge_attrs(chk, row, o, "mc:" + name)
+        elif name == "slots":
+            chk.count(["s", row["origin"], row["content"], row["hops"]], True)
+            judge_slot(chk, row, o, "mc:slots")
+        else:
+            chk.count(["g", row["kind"], row["s"]], "<" in row["s"])
+            judge_guard(chk, row, o, "mc:guard")
+    for e in exports:
+        chk.add("states", e["states"])
+        chk.add("transitions", e["transitions"])
+        chk.add("cases_replayed", len(e["rows"]))
+        chk.cov.setdefault("instances", {})[e["name"]] = {"cases": len(e["rows"]), "tlc_wall_s": e["wall_s"]}
+        if e["rows"]:
+            r = e["rows"][len(e["rows"]) * 2 // 3]
+            chk.sample({e["name"]: {k: v for k, v in r.items() if k not in ("once", "twice")}}, limit=6)
+
+
+# ====================================================================== code -> spec: random drivers
+_EXACT_KW = ["class", "id", "data-x", "@click", "x-on.y", "aria-label", "é", "a_b", "hx-get", "@click.stop"]
+_EXACT_DICT = _EXACT_KW + [":cls", "v-bind:k", "ünï", "a#b"]
+_WEAK = ["a&b", "a<b", "a'b", "a\"b", "q>r"]
+_UNREP = ["x y", "a=b", "a/b", "on mouseover=alert(1) z", "t\tu"]
+_CHUNKS = list("abcxyz019 -_.:;#=/{}%\\") + ['"', "'", "<", ">", "&", " ", " ", "é", "ü", "中", "\n", "\t",
+                                             "&amp;", "&lt;", "&#39;", "&quot;", "&copy;", "<b>", "\">", "' x='"]
+_SAFE_CHUNKS = list("abcxyz019 -_.:;#'") + ["&amp;", "&lt;", "&gt;", "&quot;", "&#x27;"]
+
+
+def _rand_value(rnd: random.Random, for_kw: bool = False) -> Dict[str, str]:
+    x = rnd.random()
+    if x < 0.60:
+        return {"t": "str", "s": "".join(rnd.choice(_CHUNKS) for _ in range(rnd.randint(0, 8)))}
+    if x < 0.68:
+        return {"t": "safe", "s": "".join(rnd.choice(_SAFE_CHUNKS) for _ in range(rnd.randint(0, 6)))}
+    if x < 0.80:
+        return {"t": "num", "s": rnd.choice(["0", "1", "7", "42", "-3", "2.5", "100", "0.25"])}
+    if x < 0.87:
+        return {"t": "true", "s": ""}
+    if x < 0.92:
+        return {"t": "false", "s": ""}
+    return {"t": "none", "s": ""}
+
+
+def _rand_dict(rnd: random.Random, names: List[str], kmax: int) -> List[Dict[str, Any]]:
+    k = rnd.randint(0, min(kmax, len(names)))
+    return [{"n": n, "v": _rand_value(rnd)} for n in rnd.sample(names, k)]
+
+
+_FORM_PAIRS = [(a, d) for a in ("pos", "posnone", "kw", "kwlast", "agg", "spread", "absent")
+               for d in ("pos", "kw", "kwlast", "agg", "spread", "absent")
+               if d != "pos" or a in ("pos", "posnone")]
+
+
+def record_attrs_trace(rnd: random.Random, tid: int) -> Dict[str, Any]:
+    """One compiled {% html_attrs %} template rendered 1-4 times.  Dictionaries whose intended content
+    does not change between two renders are the SAME objects (a library that mutates its inputs shows)."""
+    from django.template import Template
+    fa, fd = rnd.choice(_FORM_PAIRS)
+    odd = rnd.random() < 0.12
+    pool = list(_EXACT_DICT)
+    if odd:
+        pool += [rnd.choice(_WEAK + _UNREP)]
+    names = rnd.sample(pool, rnd.randint(1, 5))
+    kwnames = [n for n in names if n in _EXACT_KW] or ["class"]
+    nkw = rnd.choice([0, 0, 1, 1, 2, 2, 3, 4, 6])
+    kws_shape = []
+    for _ in range(nkw):
+        n = rnd.choice(kwnames)
+        v = _rand_value(rnd, True)
+        lit_ok = v["t"] in ("num", "true", "none") or (v["t"] == "str" and v["s"] and
+                                                       re.fullmatch(r"[A-Za-z0-9 _.:;#-]+", v["s"]) is not None)
+        via = rnd.choice(["var", "var", "spread", "lit" if lit_ok else "var"])
+        kws_shape.append((n, via, v if via == "lit" else None))
+
+    def dict_names(form):
+        return [n for n in names if form != "agg" or n in _EXACT_KW]
+    agg_a = rnd.sample(dict_names("agg"), min(len(dict_names("agg")), rnd.randint(0, 3))) if fa == "agg" else None
+    agg_d = rnd.sample(dict_names("agg"), min(len(dict_names("agg")), rnd.randint(0, 3))) if fd == "agg" else None
+    events: List[Dict[str, Any]] = []
+    tpl = None
+    src0 = None
+    prev_ctx: Dict[str, Any] = {}
+    prev_case: Optional[Dict[str, Any]] = None
+    for _ in range(rnd.randint(1, 4)):
+        def gen(form, agg, key):
+            if form in ("absent", "posnone"):
+                return []
+            if prev_case is not None and rnd.random() < 0.5:
+                return prev_case[key]                     # unchanged -> same object again
+            if agg is not None:
+                return [{"n": n, "v": _rand_value(rnd)} for n in agg]
+            return _rand_dict(rnd, names, 4)
+        case = {"defaults": gen(fd, agg_d, "defaults"), "attrs": gen(fa, agg_a, "attrs"),
+                "kws": [{"n": n, "v": lit if lit is not None else _rand_value(rnd, True)} for n, via, lit in kws_shape],
+                "vias": [via for _, via, _ in kws_shape], "fa": fa, "fd": fd}
+        src, ctx = materialize_attrs(case)
+        if tpl is None:
+            src0 = src
+            try:
+                tpl = Template(src)
+            except Exception as e:
+                raise MachineryError(f"generated tag does not compile: {src!r}: {e!r}")
+        elif src != src0:
+            raise MachineryError(f"template shape changed between renders: {src0!r} vs {src!r}")
+        if prev_case is not None:
+            for key, var in (("attrs", "A"), ("defaults", "D")):
+                if case[key] is prev_case[key] and var in prev_ctx and var in ctx:
+                    ctx[var] = prev_ctx[var]
+            if "SP0" in ctx and "SP0" in prev_ctx:
+                for key in ("attrs", "defaults"):
+                    if case[key] is prev_case[key] and key in ctx["SP0"] and key in prev_ctx["SP0"]:
+                        ctx["SP0"][key] = prev_ctx["SP0"][key]
+        obs = render_attrs(tpl, ctx)
+        events.append({"defaults": case["defaults"], "attrs": case["attrs"], "kws": case["kws"],
+                       "obs": {"err": obs["err"], "spill": obs["spill"], "attrs": obs["attrs"], "out": obs["out"]}})
+        prev_ctx, prev_case = ctx, case
+    return {"id": tid, "kind": "attrs", "events": events, "src": src0, "fa": fa, "fd": fd,
+            "vias": [via for _, via, _ in kws_shape]}
+
+
+_TEXT_BITS = ["a", "b c", "é", "中", " & ", "\"q\"", "'s'", "&amp;", "&lt;", "1 &gt; 0", " ", "x=y;", "&#39;"]
+
+
+def _rand_fragment(rnd: random.Random, depth: int = 0) -> str:
+    """A well-formed HTML fragment with quotes, ampersands, references, non-ASCII text and elements."""
+    out = []
+    for _ in range(rnd.randint(1, 4)):
+        x = rnd.random()
+        if x < 0.55 or depth >= 2:
+            out.append(rnd.choice(_TEXT_BITS))
+        else:
+            tag = rnd.choice(["b", "i", "span", "p"])
+            attr = rnd.choice(["", "", ' class="k"', " title='t &amp; u'", ' data-x="1 > 0"'])
+            out.append(f"<{tag}{attr}>{_rand_fragment(rnd, depth + 1)}</{tag}>")
+    return "".join(out)
+
+
+def record_slot_trace(rnd: random.Random, tid: int) -> Dict[str, Any]:
+    origin = rnd.choice(["str", "str", "safe", "fn_str", "fn_str", "fn_safe", "slot_fn_str", "slot_fn_safe",
+                         "slot_slot_fn_str", "slot_escaped_fn_str"])
+    n = rnd.choice([1, 2, 2, 3, 3, 4, 5])
+    hops = [{"via": rnd.choice(["render", "render", "dynamic"]), "flag": rnd.random() < 0.6}]
+    while len(hops) < n:
+        if hops[-1]["via"] == "fill" or rnd.random() < 0.2:
+            hops.append({"via": "fill", "flag": False})
+        else:
+            hops.append({"via": rnd.choice(["render", "render", "dynamic"]), "flag": rnd.random() < 0.5})
+    content = _rand_fragment(rnd)
+    if hops[0]["flag"] and origin in ("str", "fn_str", "slot_fn_str", "slot_slot_fn_str") and rnd.random() < 0.4:
+        # the specification demands escaping here, so arbitrary (also malformed) markup may be used
+        content = "".join(rnd.choice(_CHUNKS + ["</div>", "<script>", "-->", "<!--"]) for _ in range(rnd.randint(1, 9)))
+    content = content.strip() or "&"
+    obs = observe_slot(origin, content, hops)
+    return {"id": tid, "kind": "slot", "origin": origin, "content": content, "hops": hops,
+            "out": obs["out"], "err": obs["err"]}
+
+
+_G_BITS = ["</", "</", "<", "/", "script", "SCRIPT", "sCrIpT", "Script", "style", "STYLE", "Style", "stYLe",
+           ">", ">", " ", "\n", "\t", "x", "=", "\"", "'", "-", "a();", "{}", "/>", "é", "scr", "ipt", "<\\/"]
+
+
+def record_guard_trace(rnd: random.Random, tid: int) -> Dict[str, Any]:
+    kind = rnd.choice(["js", "css"])
+    while True:
+        s = ("M1" + rnd.choice(["", " ", ";"]) + "".join(rnd.choice(_G_BITS) for _ in range(rnd.randint(0, 12))) +
+             rnd.choice(["", "Z()", ";"])).strip()
+        if "<!--" not in s:
+            break
+    obs = observe_guard(kind, s)
+    return {"id": tid, "kind": "guard", "gkind": kind, "s": s, "outcome": obs["outcome"], "rest": obs["rest"],
+            "exc": obs["exc"]}
+
+
+def record_traces(seed: int, n_attrs: int, n_slots: int, n_guard: int) -> List[Dict[str, Any]]:
+    traces: List[Dict[str, Any]] = []
+    for kind, n, fn in (("attrs", n_attrs, record_attrs_trace), ("slot", n_slots, record_slot_trace),
+                        ("guard", n_guard, record_guard_trace)):
+        for i in range(n):
+            rnd = random.Random(seed * 1000003 + {"attrs": 1, "slot": 2, "guard": 3}[kind] * 100000 + i)
+            traces.append(fn(rnd, len(traces) + 1))
+    return traces
+
+
+_TRACE_FIELDS = {"attrs": ("id", "kind", "events"), "slot": ("id", "kind", "origin", "content", "hops", "out", "err"),
+                 "guard": ("id", "kind", "gkind", "s", "outcome", "rest")}
+
+
+def judge_traces_with_tlc(traces: List[Dict[str, Any]], batch: int = 1500, parallel: int = 3) -> Dict[str, Any]:
+    """Trace_C13 on the recorded observations: {accepted:set, rejected:{id:why}, drift:set, states:int}."""
+    from concurrent.futures import ThreadPoolExecutor
+    w = workdir("c13tr")
+    cfg = w / "trace.cfg"
+    cfg.write_text("SPECIFICATION TrSpec\n")
+    chunks = [traces[i:i + batch] for i in range(0, len(traces), batch)]
+
+    def one(args):
+        k, chunk = args
+        f = w / f"traces_{k}.ndjson"
+        tlc.write_ndjson(f, [{fld: t[fld] for fld in _TRACE_FIELDS[t["kind"]]} for t in chunk])
+        r = tlc.require_ok(tlc.run("Trace_C13", str(cfg), env=dict(TLC_ENV, IN=str(f)), workers=1, timeout=3000),
+                           "Trace_C13")
+        v = tlc.verdicts(r, len(chunk), "Trace_C13")
+        drift = {int(m.group(1)) for m in re.finditer(r'<<"DRIFT", (\d+), ', r.out)}
+        return v, drift, r.distinct
+    res = {"accepted": set(), "rejected": {}, "drift": set(), "states": 0}
+    with ThreadPoolExecutor(max_workers=max(1, min(parallel, len(chunks)))) as ex:
+        for v, drift, states in ex.map(one, enumerate(chunks)):
+            res["accepted"] |= v["accepted"]
+            res["rejected"].update(v["rejected"])
+            res["drift"] |= drift
+            res["states"] += states
+    return res
+
+
+def validate_traces(chk: Check, traces: List[Dict[str, Any]]) -> None:
+    res = judge_traces_with_tlc(traces)
+    by_id = {t["id"]: t for t in traces}
+    for tid, why in sorted(res["rejected"].items()):
+        t = by_id[tid]
+        m = re.search(r'"dev:([^"]+)"', why["clauses"])
+        key = m.group(1) if m and why["clauses"].count('"') == 2 else None
+        if t["kind"] == "attrs":
+            case = {"kind": "html_attrs_trace", "template": t["src"], "fa": t["fa"], "fd": t["fd"], "vias": t["vias"],
+                    "events": t["events"][: why["event"]]}
+        else:
+            case = {k: v for k, v in t.items() if k != "id"}
+            case["kind"] = t["kind"] + "_trace"
+        chk.violation(case, {"tlc": why}, key=key)
+    for t in traces:
+        chk.count([t.get("src"), t.get("events"), t.get("origin"), t.get("content"), t.get("hops"), t.get("s"),
+                   t.get("gkind")], True)
+    chk.add("traces_validated_against_impl", len(traces))
+    chk.add("trace_events", sum(len(t["events"]) if t["kind"] == "attrs" else 1 for t in traces))
+    chk.add("trace_states", res["states"])
+    chk.add("model_drift", len(res["drift"]))
+    for kind in ("attrs", "slot", "guard"):
+        ts = [t for t in traces if t["kind"] == kind]
+        if ts:
+            t = ts[len(ts) // 2]
+            chk.sample({"trace_" + kind: {k: v for k, v in t.items() if k not in ("id", "rest")}}, limit=9)
+
+
+# ====================================================================== entry points
+_RULE = ("spec->code: every state of the bounded TLC instances is a case (html_attrs: one name x all value "
+         "representatives x <=MaxKw keywords; 2-3 names x every writing form; odd attribute names.  slots: origin x "
+         "hop chain x content.  js/css: prefix x open x letter-case pattern x tail) and is replayed on the real "
+         "library; code->spec: seeded random deeper runs judged by TLC (Trace_C13).  Non-trivial: html_attrs cases "
+         "with a keyword, an override or a non-exact name; all slot cases; js/css contents containing '<'.  "
+         "Distinct by hash of the abstract case.")
+_ASSUME = [
+    "html.parser (Python stdlib) stands for 'an HTML parser' for start tags; for <script>/<style> content the "
+    "tokenizer of specs/EndTagGuard.tla is used (html.parser 3.12 does not follow the standard there)",
+    "attribute names are lower-case; safe strings contain no raw double quote; template literals only without "
+    "special characters",
+    "appending to/with None/True/False, repeated attrs:k= aggregates, dynamic expressions and filters inside "
+    "html_attrs are unspecified and admitted/not generated",
+    "a template fill handed on from Python (fill hop followed by render/dynamic hop) is not generated: it raises "
+    "RecursionError on the current tree (slot resolution, not escaping)",
+    "raw (unescaped) slot contents are well-formed HTML fragments; generated JS/CSS never contains '<!--' or outer "
+    "white space",
+]
+
+
+def _core(chk: Check, exports: List[Dict[str, Any]], n_attrs: int, n_slots: int, n_guard: int, procs: int) -> None:
+    replay_exports(chk, exports, procs)
+    validate_traces(chk, record_traces(chk.seed, n_attrs, n_slots, n_guard))
+
+
+def run(tier: str) -> int:
+    from . import boot
+    boot.setup()
+    chk = Check(PID, tier, "model_checking")
+    quick = tier != "thorough"
+    exports = compute_exports(tier)
+    if quick:
+        _core(chk, exports, n_attrs=1500, n_slots=300, n_guard=1200, procs=6)
+    else:
+        _core(chk, exports, n_attrs=15000, n_slots=2500, n_guard=10000, procs=8)
+    chk.cov["exhaustive"] = True
+    chk.cov["rule"] = _RULE
+    chk.assumptions += _ASSUME
+    return chk.finish()
+
+
+def _trace_of_case(case: Dict[str, Any]) -> Dict[str, Any]:
+    """Re-run a stored violation case on the real code and return it as a trace for Trace_C13."""
+    from django.template import Template
+    k = case["kind"]
+    if k == "html_attrs":
+        c = case["case"]
+        obs = observe_attrs(c)
+        ev = {"defaults": c["defaults"], "attrs": c["attrs"], "kws": c["kws"],
+              "obs": {f: obs[f] for f in ("err", "spill", "attrs", "out")}}
+        return {"id": 1, "kind": "attrs", "events": [ev], "src": obs["src"]}
+    if k == "html_attrs_trace":
+        events, tpl, prev = [], None, {}
+        for e in case["events"]:
+            c = dict(e, fa=case["fa"], fd=case["fd"], vias=case["vias"])
+            src, ctx = materialize_attrs(c)
+            tpl = tpl or Template(src)
+            for var in ("A", "D"):                      # same content as before -> same object as before
+                if var in prev and var in ctx and prev[var][0] == c["attrs" if var == "A" else "defaults"]:
+                    ctx[var] = prev[var][1]
+            obs = render_attrs(tpl, ctx)
+            prev = {var: (c["attrs" if var == "A" else "defaults"], ctx[var]) for var in ("A", "D") if var in ctx}
+            events.append({"defaults": e["defaults"], "attrs": e["attrs"], "kws": e["kws"],
+                           "obs": {f: obs[f] for f in ("err", "spill", "attrs", "out")}})
+        return {"id": 1, "kind": "attrs", "events": events, "src": case["template"]}
+    if k in ("slot", "slot_trace"):
+        origin = case.get("content_origin") or case["origin"]
+        obs = observe_slot(origin, case["content"], case["hops"])
+        return {"id": 1, "kind": "slot", "origin": origin, "content": case["content"], "hops": case["hops"],
+                "out": obs["out"], "err": obs["err"]}
+    if k in ("guard", "guard_trace"):
+        gk = case.get("component_attr") or case["gkind"]
+        s = case.get("content") if k == "guard" else case["s"]
+        obs = observe_guard(gk, s)
+        return {"id": 1, "kind": "guard", "gkind": gk, "s": s, "outcome": obs["outcome"], "rest": obs["rest"]}
+    raise MachineryError(f"unknown case kind {k}")
+
+
+def replay(path: str) -> int:
+    """Re-run the stored case on the current tree; TLC (Trace_C13) judges the fresh observation."""
+    from . import boot
+    boot.setup()
+    d = json.load(open(path, encoding="utf-8"))
+    t = _trace_of_case(d["case"])
+    print(json.dumps({k: v for k, v in t.items() if k != "id"}, indent=1, ensure_ascii=False))
+    res = judge_traces_with_tlc([t])
+    if 1 in res["accepted"]:
+        print("conforms to the specification")
+        return 0
+    print("REJECTED by the specification:", res["rejected"][1])
+    return 1
